@@ -15,7 +15,8 @@
      interp f q   linear interpolation of f at fractional sample q
      framenum true true ...   the code after proposed_fixes/C19-1.diff + C19-2.diff *)
 From Coq Require Import ZArith QArith Qround.
-From GD Require Import C19.Framenum C19.FramenumProofs C19.FramenumTop C19.Shape Gen.FramenumShape.
+From Coq Require Import Qabs.
+From GD Require Import C19.Framenum C19.FramenumProofs C19.FramenumTop C19.Shape C19.Rounding Gen.FramenumShape.
 Local Open Scope Z_scope.
 
 (* limits: 0 selects the frame offset / gd_nframes; both are scaled by spf *)
@@ -167,3 +168,14 @@ Theorem source_conditions : forall e,
   (if fs_c3 e then fs_a2 e else fs_a3 e) = sample_end (ShapeEnv.e_spf e) (ShapeEnv.e_nf e) (ShapeEnv.e_fe e) /\
   fs_c4 e = (ShapeEnv.e_fe e - ShapeEnv.e_fs e <? 2).
 Proof. exact fs_shape. Qed.
+
+(* the double arithmetic of the code against the exact rational of the model: in the standard model of rounding
+   (every operation returns x (1 + d), |d| <= u <= 1/8; u = 2^-53 for doubles) the frame number the C code computes
+   between two samples differs from the model's exact answer by at most u (3 |low| + 11) / spf *)
+Theorem rounding_bound : forall (u : Q) (rnd : Q -> Q) (L spf : Z) (value lv hv : Q),
+  (0 <= u)%Q -> (u <= 1 # 8)%Q -> (forall x, Qabs (rnd x - x) <= u * Qabs x)%Q ->
+  (0 < spf)%Z -> (lv <= value)%Q -> (value <= hv)%Q -> (lv < hv)%Q ->
+  (Qabs (rnd (rnd (inject_Z L + rnd (rnd (value - lv) / rnd (hv - lv))) / inject_Z spf)
+         - (inject_Z L + (value - lv) / (hv - lv)) / inject_Z spf)
+   <= u * (3 * Qabs (inject_Z L) + 11) / inject_Z spf)%Q.
+Proof. intros u rnd L spf value lv hv H0 H1 H2. exact (framenum_rounding_bound u H0 H1 rnd H2 L spf value lv hv). Qed.
